@@ -250,16 +250,16 @@ def cut_plans(r, n: int, tier: str):
     yield []
     if n <= 1:
         return
-    if n <= (120 if tier == "thorough" else 60):
-        for a in range(1, n):
+    if n <= (120 if tier == "thorough" else 90):
+        for a in range(1, n):                                     # every 1-cut partition
             yield [a]
-    if n <= (120 if tier == "thorough" else 40):
-        step = 1 if tier == "thorough" else 3
-        for a in range(1, n, step):
+    if n <= (120 if tier == "thorough" else 64):
+        step = 1 if tier == "thorough" else 2
+        for a in range(1, n, step):                               # 2-cut partitions (every one in the thorough tier)
             for b in range(a + 1, n, step):
                 yield [a, b]
-    if n <= 40 and tier == "thorough":
-        for c in itertools.combinations(range(1, n, 2), 3):
+    if n <= (48 if tier == "thorough" else 34):
+        for c in itertools.combinations(range(1, n, 1 if tier == "thorough" else 3), 3):     # 3-cut partitions
             yield list(c)
     yield list(range(1, n))                       # character by character
     yield list(range(1024, n, 1024))              # the handlers' read size
@@ -295,6 +295,20 @@ def build_streams(r, tier: str):
         if dirty and r.random() < 0.6:
             pieces.append(("junk", "padding " * 300))        # enough further data for recovery
         yield pieces
+
+
+SHORT = ['<getProperties version="1.7"/>', '<pingReply uid="7"/>', '<message message="m"/>', '<delProperty device="D"/>',
+         '<enableBLOB device="D">Also</enableBLOB>', "<pingRequest uid='&gt;'/>", '<message message="a>b"></message>\n']
+
+
+def short_streams(tier: str):
+    """short streams for which EVERY 1-, 2- and 3-cut partition is executed"""
+    for a in SHORT:
+        yield [("msg", a)]
+        yield [("junk", "x>"), ("msg", a), ("junk", "\n")]
+    for a, b in itertools.permutations(SHORT[:5], 2):
+        if len(a) + len(b) <= (64 if tier == "quick" else 90):
+            yield [("msg", a), ("msg", b)]
 
 
 def truncation_streams(tier: str):
@@ -447,6 +461,13 @@ def run_into(v: Verdict, prop: str, tier: str) -> None:
             plans = plans[:3] + r.sample(plans[3:], (37 if tier == "quick" else 197))
         for cuts in plans:
             traces.append(run_stream(pieces, cuts, r.choice(thrs_all)))
+    nshort = 0
+    for pieces in short_streams(tier):
+        n = sum(len(t) for _, t in pieces)
+        for cuts in cut_plans(r, n, tier):
+            nshort += 1
+            traces.append(run_stream(pieces, cuts, [16, 128, 2048, -1][nshort % 4] if n > 16 else -1))
+    v.notes["exhaustive_cut_partitions"] = nshort
     for pieces in truncation_streams(tier):
         n = sum(len(t) for _, t in pieces)
         for thr in ([128, -1] if tier == "quick" else thrs_all):
